@@ -22,6 +22,14 @@ CHECKS = {
          "deterministic simulation: seeded histories produce the saved state; a simulated io.Reader (1-byte reads, random short reads, data-with-EOF, trailing bytes) feeds Load; dump-before-save vs dump-after-load oracle; worker address-space limit turns count-sized allocations into observations",
          "Seeded search over saved states (empty, emptied, after removals/updates/hand-overs, rich metadata), header flag, reader fragmentation and load target (fresh, other parameters, used index). Oracle: Load of own output succeeds, consumes exactly the bytes written, and the dump (ids, bit-identical vectors, metadata, levels, live links, entry point, both counters) equals the dump before Save.",
          "Reader faults are those io.Reader permits; truncated/corrupted input is outside the statement. Memory proportionality is observed only through a 2 GiB address-space limit per worker."),
+ "C02": ("exploration", "DESIGN.md §3 C02, §2.5 World II",
+         "deterministic simulation of the partition state machine: seeded logs of replicated changes applied through the real apply function, refinement against a sequential map model after every entry (outcome, contents, counters)",
+         "Seeded search over logs of all six change kinds; after every entry the outcome the partition reports, its full contents and its counters must equal a sequential map model (exact 'already exists'/'not found', merge semantics, Len, data bytes, bounded BytesSize).",
+         "Entries are well-formed (malformed ones are C12's subject); raft is stubbed out (entries are handed to partition.process directly); link-estimate bound 4 KiB per item for the default parameters."),
+ "C04": ("fault_enumeration", "DESIGN.md §3 C04, §2.5 World II",
+         "deterministic simulation of several partition replicas fed one generated log; the snapshot/restore point is enumerated over every cut of each log (fresh, used and re-snapshotted restorers, different owned map orders); dump-equality oracle plus sequential map model",
+         "For each seeded log, EVERY cut point is exercised: prefix, snapshot, restore into a fresh / used replica, suffix; all replicas must report the same outcome per entry and end with identical contents, equal to the sequential map model.",
+         "Enumeration is complete per log over cut points (not over logs); raft and the log store are stubbed (World III covers the replicated path)."),
 }
 
 NOT_APPLICABLE = {
